@@ -34,6 +34,11 @@ type vhsAct struct {
 	Path  string          `json:"path,omitempty"`
 	NV    json.RawMessage `json:"nv,omitempty"`
 	Strip bool            `json:"strip,omitempty"`
+	// sequence families (one live value): a document with fields FV declaring the hash of DV
+	FV     json.RawMessage `json:"fv,omitempty"`
+	DV     json.RawMessage `json:"dv,omitempty"`
+	Decl   string          `json:"decl,omitempty"`
+	Accept bool            `json:"accept,omitempty"`
 }
 
 type vhsStep struct {
@@ -128,6 +133,67 @@ func vhsGroup(sch *crypto.Scheme, v vhsGroupV) *key.Group {
 		g.PublicKey = d
 	}
 	return g
+}
+
+// assign every field of the abstract value to the live Info, in place
+func vhsAssignInfo(i *Info, sch *crypto.Scheme, v vhsInfoV) {
+	n := vhsInfo(sch, v)
+	i.PublicKey, i.ID, i.Period, i.Scheme, i.GenesisTime, i.GenesisSeed = n.PublicKey, n.ID, n.Period, n.Scheme, n.GenesisTime, n.GenesisSeed
+}
+
+// assign every field of the abstract value to the live Group, in place; a cached genesis seed
+// (seed = "frozen" in Hashes.tla) is left as the code cached it, unless this very step reset the seed
+func vhsAssignGroup(g *key.Group, sch *crypto.Scheme, v vhsGroupV, a vhsAct) {
+	n := vhsGroup(sch, v)
+	g.Threshold, g.Period, g.CatchupPeriod, g.ID, g.Nodes = n.Threshold, n.Period, n.CatchupPeriod, n.ID, n.Nodes
+	g.GenesisTime, g.TransitionTime, g.PublicKey = n.GenesisTime, n.TransitionTime, n.PublicKey
+	if v.Seed != "frozen" {
+		g.GenesisSeed = n.GenesisSeed
+	} else if a.Name == "set" && a.Field == "seed" {
+		g.GenesisSeed = nil
+	}
+}
+
+// decode a document (fields fv, declaring the hash of dv or none) INTO the live Info
+func vhsDecodeInto(sch *crypto.Scheme, obj **Info, a vhsAct) (accepted bool, declared string, detail string) {
+	var fv, dv vhsInfoV
+	if err := json.Unmarshal(a.FV, &fv); err != nil {
+		return false, "", "harness: " + err.Error()
+	}
+	var dh []byte
+	if a.Decl != "none" {
+		if err := json.Unmarshal(a.DV, &dv); err != nil {
+			return false, "", "harness: " + err.Error()
+		}
+		dh = vhsInfo(sch, dv).Hash() // a fresh value, hashed once
+	}
+	doc := vhsInfo(sch, fv)
+	switch a.Path {
+	case "json":
+		b, err := json.Marshal(doc)
+		if err != nil {
+			return false, vhsHex(dh), err.Error()
+		}
+		var m map[string]any
+		_ = json.Unmarshal(b, &m)
+		if dh == nil {
+			delete(m, "chain_hash")
+		} else {
+			m["chain_hash"] = vhsHex(dh)
+		}
+		b2, _ := json.Marshal(m)
+		err = json.Unmarshal(b2, *obj) // into the live value
+		return err == nil, vhsHex(dh), vhsErr(err)
+	case "proto":
+		p := doc.ToProto(nil)
+		p.Hash = dh
+		n, err := InfoFromProto(p)
+		if err == nil {
+			*obj = n
+		}
+		return err == nil, vhsHex(dh), vhsErr(err)
+	}
+	return false, "", "unknown path"
 }
 
 func vhsHex(b []byte) string { return hex.EncodeToString(b) }
@@ -293,7 +359,7 @@ func TestVerifHashes(t *testing.T) {
 			if err := json.Unmarshal(st.A, &st.a); err != nil {
 				t.Fatal(err)
 			}
-			if s.Fam == "chain" {
+			if s.Fam == "chain" || s.Fam == "chainseq" {
 				err = json.Unmarshal(st.V, &st.iv)
 			} else {
 				err = json.Unmarshal(st.V, &st.gv)
@@ -319,9 +385,42 @@ func TestVerifHashes(t *testing.T) {
 		}
 		for _, sc := range scripts {
 			tr.Emit("Reset", vlib.E{"scenario": sc.Name, "class": sc.Class, "scheme": name, "fam": sc.Fam})
+			var liveInfo *Info
+			var liveGroup *key.Group
 			for _, st := range sc.Steps {
 				ev := vlib.E{"a": st.A, "v": st.V}
-				if sc.Fam == "chain" {
+				if sc.Fam == "chainseq" { // ONE Info value lives through the whole scenario
+					switch st.a.Name {
+					case "init":
+						liveInfo = vhsInfo(sch, st.iv)
+					case "set":
+						vhsAssignInfo(liveInfo, sch, st.iv)
+					case "copyset":
+						c := *liveInfo
+						liveInfo = &c
+						vhsAssignInfo(liveInfo, sch, st.iv)
+					case "toproto":
+						ev["pch"] = vhsHex(liveInfo.ToProto(nil).Hash)
+					case "decode":
+						ev["accepted"], ev["dh"], ev["detail"] = vhsDecodeInto(sch, &liveInfo, st.a)
+					}
+					ev["ch"] = vhsHex(liveInfo.Hash())
+				} else if sc.Fam == "groupseq" { // ONE Group value lives through the whole scenario
+					switch st.a.Name {
+					case "init":
+						liveGroup = vhsGroup(sch, st.gv)
+					case "set", "permute":
+						vhsAssignGroup(liveGroup, sch, st.gv, st.a)
+					case "copyset":
+						c := *liveGroup
+						liveGroup = &c
+						vhsAssignGroup(liveGroup, sch, st.gv, st.a)
+					}
+					ev["gh"], ev["ch"] = vhsHex(liveGroup.Hash()), ""
+					if liveGroup.PublicKey != nil {
+						ev["ch"] = vhsHex(NewChainInfo(liveGroup).Hash()) // runs GetGenesisSeed on the live group
+					}
+				} else if sc.Fam == "chain" {
 					i := vhsInfo(sch, st.iv)
 					ev["ch"] = vhsHex(i.Hash())
 					switch st.a.Name {
